@@ -3,6 +3,9 @@ package main
 import (
 	"rscheck/driver"
 	"rscheck/rules/c06"
+	"rscheck/rules/c14"
+	"rscheck/rules/c20"
 )
 
-func main() { driver.Main([]driver.PropDef{c06.Def}) }
+// development binary of the C06/C14/C20 rule sets (select with -prop)
+func main() { driver.Main([]driver.PropDef{c06.Def, c14.Def, c20.Def}) }
